@@ -336,7 +336,7 @@ pub fn def() -> CheckDef {
         assumptions: vec!["H1 re-export hook for the Pinocchio copy", "nsvm runtime as in DESIGN.md §5"],
         subs: vec![
             sub("token_deltas_and_estimate", 1_500_000, 300_000_000, fn_case, |c: &FnCase, l: &mut Local| check_fn(c, l)),
-            sub("instruction_thresholds", 4000, 150_000, ix_case, |c: &IxCase, l: &mut Local| check_ix(c, l)),
+            sub("instruction_thresholds", 16_000, 400_000, ix_case, |c: &IxCase, l: &mut Local| check_ix(c, l)),
         ],
     }
 }
